@@ -4,7 +4,7 @@ O: the extracted, verified explorer (Kernel/Ref.v, C14_explorer_sound_complete) 
    each generated program; the final observation of the real simulator (per-actor completed operations with their results,
    blocked actors, semaphore values) under every context factory must be one of them, and the engine's deadlock report must
    equal the verified deadlock predicate of that state.
-K: the order in which the real run started its operations is replayed through the extracted reference step function
+K: the order in which maestro handled the operations of the real run (SIMGRID_VERIF hook in ActorImpl::simcall_handle) is replayed through the extracted reference step function
    (C14_replay_sound): it must be executable, end in a terminal state and give the implementation's own observation.  The
    deterministic engine model's trace (C14_engine_refines) is compared too, as a note only: another fixed scheduling order
    would be a harmless rewrite for this property."""
@@ -89,7 +89,9 @@ def run(ctx):
     for f in facts:
         lines = E.run_impl(exe, enc, cfg=["contexts/factory:" + f])
         obs = [E.parse_obs(l) for l in lines]
-        rep = fw.run_model("c14", "run_c14_replay", [e + [len(o.get("tr", []))] + [a for a, _ in o.get("tr", [])] for e, o in zip(enc, obs)])
+        for o in obs:               # the schedule = order in which maestro handled the operations (hook); fall back to the start order
+            o["sched"] = [a for a, _ in (o.get("ht") or o.get("tr") or [])]
+        rep = fw.run_model("c14", "run_c14_replay", [e + [len(o["sched"])] + o["sched"] for e, o in zip(enc, obs)])
         for p, r, o, rp, en in zip(progs, R, obs, rep, eng):
             case = {"prog": p, "factory": f}
             dist["impl_runs"] += 1
@@ -113,7 +115,7 @@ def run(ctx):
             # K: the run's own schedule through the reference step function
             if rp[0] != 1:
                 ctx.mismatch("trace-replay", "factory %s: the order in which operations were started is not executable in the reference "
-                             "semantics; program %s trace %s" % (f, E.pretty(p), o["tr"]), case)
+                             "semantics; program %s schedule %s" % (f, E.pretty(p), o["ht"] or o["tr"]), case)
             elif rp[1] != 1 or rp[4:] != proj:
                 ctx.mismatch("trace-replay", "factory %s: replaying the run's schedule gives %s (terminal=%d), the run observed %s; program %s"
                              % (f, rp[4:], rp[1], proj, E.pretty(p)), case)
@@ -125,14 +127,16 @@ def run(ctx):
                          % (f, "reported" if o["dl"] else "did not report", "is" if verdict else "is not", E.pretty(p)), case)
             if not E.is_timed(p) and en and en[0] == 1:
                 dist["engine_model_trace_compared"] += 1
-                if en[2:2 + en[1]] == [a for a, _ in o["tr"]]:
+                if en[2:2 + en[1]] == o["sched"]:
                     dist["engine_model_trace_equal"] += 1
                 else:
                     ctx.notes.append("engine model schedule differs from the run's (harmless for C14): %s" % json.dumps(E.pretty(p)))
     ctx.cov["input_distribution"] = dist
     ctx.assumptions += ["programs are well-formed (unlock / condvar wait only on a mutex the actor holds): the harness would abort otherwise",
+                        "no actor locks a non-recursive mutex it already holds (the reference blocks it for ever; MutexAcquisitionImpl::wait_for lets it "
+                        "through because it tests the owner instead of the grant - mutex semantics, property C04's ground)",
                         "sleeps and communication delays only restrict the interleavings the simulator takes; the reference treats them as skips",
-                        "the schedule of a run is observed by the harness itself (order in which actors start operations, contexts/nthreads=1)"]
+                        "the schedule of a run is the order in which ActorImpl::simcall_handle is entered for the first simcall of each operation (hook bbdc92c4e7)"]
 
 
 META = {
